@@ -1011,3 +1011,88 @@ M("c17-listeners-not-reattached", "C17", ["C17.carry", "C17.steps"],
   E(SM, "        self.add_listener(*listeners.keys())\n", ""))
 M("c17-getstate-no-copy", "C17", ["C17.carry"],
   E(SM, "        state = self.__dict__.copy()", "        state = self.__dict__"), note="serialising mutates the live machine (deletes its engine)")
+
+# ----------------------------------------------------------------------------------------- C15
+M("c15-from-swaps-second-origin", "C15", ["C15.to/from"],
+  E(ST, """        for origin in states:
+            transition = Transition(origin, self._state, **kwargs)""", """        for index, origin in enumerate(states):
+            if index == 0:
+                transition = Transition(origin, self._state, **kwargs)
+            else:
+                transition = Transition(self._state, origin, **kwargs)"""))
+M("c15-or-rebuilds-right-operand", "C15", ["C15.or"],
+  E(TL, "        return TransitionList(self.transitions).add_transitions(other)",
+    "        return TransitionList(self.transitions).add_transitions(\n            [Transition(t.source, t.target, event=t.event) for t in other]\n        )"),
+  note="callbacks/guards of the right operand are dropped")
+M("c15-events-no-split", "C15", ["C15.events"],
+  E(EVS, "            for event in events.split(\" \"):", "            for event in [events]:"))
+M("c15-enum-initial-by-first-member", "C15", ["C15.enum"],
+  E(STS, "                    initial=e is initial,", "                    initial=e is list(enum_type)[0],"))
+M("c15-enum-final-ignored-when-single", "C15", ["C15.enum"],
+  E(STS, "        final_set = set(ensure_iterable(final))", "        final_set = set(final) if isinstance(final, (list, tuple, set)) else set()"))
+M("c15-to-registers-on-target", "C15", ["C15.to/from"],
+  E(ST, """        transitions = TransitionList(Transition(self._state, state, **kwargs) for state in states)
+        self._state.transitions.add_transitions(transitions)""", """        transitions = TransitionList(Transition(self._state, state, **kwargs) for state in states)
+        for t in transitions:
+            t.target.transitions.add_transitions(t)"""))
+M("c15-itself-not-self", "C15", ["C15.to/from"],
+  E(ST, "        return self.__call__(self._state, **kwargs)", "        return self.__call__(**kwargs)"))
+M("c15-transitionlist-shares-list", "C15", ["C15.or"],
+  E(TL, "        self.transitions: List[Transition] = list(transitions) if transitions else []", "        self.transitions: List[Transition] = transitions if transitions else []"),
+  note="`a | b` would append b's transitions to a's own list (and State.transitions when a is one)")
+M("c15-events-dedup-dropped", "C15", ["C15.events"],
+  E(EVS, """                if event in self._items:
+                    continue
+""", ""))
+
+# ----------------------------------------------------------------------------------------- C16
+M("c16-module-level-memo-written", "C16", ["C16.inventory"],
+  E(SIG, "def _make_key(method):", "_seen_signatures = {}\n\n\ndef _make_key(method):"),
+  E(SIG, "        arguments = {}\n", "        arguments = {}\n        _seen_signatures[id(self)] = self\n"))
+M("c16-class-level-listeners", ["C16", "C12"], ["C16.fresh", "C12.own", "C16.inventory"],
+  E(SM, "        self._listeners: Dict[Any, Any] = {}\n        \"\"\"Listeners that provides attributes to be used as callbacks.\"\"\"\n", ""),
+  E(SM, """    TransitionNotAllowed = TransitionNotAllowed
+""", """    TransitionNotAllowed = TransitionNotAllowed
+    _listeners: Dict[Any, Any] = {}
+"""))
+M("c16-metaclass-shares-events-dict", "C16", ["C16.fresh"],
+  E(FAC, "        cls._events: Dict[Event, None] = {}  # used Dict to preserve order and avoid duplicates",
+    "        cls._events: Dict[Event, None] = getattr(cls, \"_events\", None) or {}"))
+M("c16-instance-writes-definition", "C16", ["C16.defwrite"],
+  E(SM, """        self._engine = self._get_engine(rtc)
+        self._engine.start()
+
+    def _get_engine""", """        self._engine = self._get_engine(rtc)
+        self._engine.start()
+        for state in self.states:
+            state.transitions.transitions.sort(key=lambda t: t.event)
+
+    def _get_engine"""))
+M("c16-mutable-default-argument", "C16", ["C16.fresh"],
+  E(CB, "    def __init__(self, factory=CallbackSpec):\n        self.items: List[CallbackSpec] = []", "    def __init__(self, factory=CallbackSpec, items=[]):\n        self.items: List[CallbackSpec] = items"))
+M("c16-constant-table-written", "C16", ["C16.inventory"],
+  E(SP, "    return pattern.sub(match_func, expr)", "    replacements.setdefault(\"&\", \" and \")\n    return pattern.sub(match_func, expr)"))
+
+# ----------------------------------------------------------------------------------------- C18
+M("c18-edge-reversed", "C18", ["C18.edge"],
+  E(DIA, "            transition.source.id,\n            transition.target.id,", "            transition.target.id,\n            transition.source.id,"),
+  note="properties.jsonl: verified to pass all 348 tests")
+M("c18-highlight-initial", "C18", ["C18.highlight"],
+  E(DIA, "        if state == self.machine.current_state:", "        if state == self.machine.initial_state:"),
+  note="properties.jsonl: verified to pass all 348 tests")
+M("c18-internal-drawn-as-edge", "C18", ["C18.edges"],
+  E(DIA, """                if transition.internal:
+                    continue
+""", ""))
+M("c18-final-states-skipped", "C18", ["C18.nodes"],
+  E(DIA, "            graph.add_node(self._state_as_node(state))", "            if not state.final:\n                graph.add_node(self._state_as_node(state))"))
+M("c18-peripheries-always-one", "C18", ["C18.node"],
+  E(DIA, "            peripheries=2 if state.final else 1,", "            peripheries=1,"))
+M("c18-initial-edge-to-first-state", "C18", ["C18.initial"],
+  E(DIA, "            self.machine.initial_state.id,", "            list(self.machine.states)[0].id,"))
+M("c18-only-first-transition-drawn", "C18", ["C18.edges"],
+  E(DIA, "            for transition in state.transitions:\n                if transition.internal:", "            for transition in state.transitions[:1]:\n                if transition.internal:"))
+M("c18-label-without-guards", "C18", ["C18.edge"],
+  E(DIA, "            label=f\"{transition.event}{cond}\",", "            label=f\"{transition.event}\","))
+M("c18-node-named-by-name", "C18", ["C18.node"],
+  E(DIA, "            state.id,\n            label=f\"{state.name}{actions}\",", "            state.name,\n            label=f\"{state.name}{actions}\","))
